@@ -673,8 +673,27 @@ async fn wait_for_pipeline_processes_and_update_status(
     let mut stopped_children = vec![];
     let mut last_failure_exit_code: Option<ExecutionExitCode> = None;
 
+    // A brace group, conditional, loop or case on its own is not a pipeline of one stage as far
+    // as PIPESTATUS goes: the statuses recorded by the last pipeline that ran inside it stand
+    // (`{ false | true; }; echo "${PIPESTATUS[*]}"` prints `1 0`).
+    let records_statuses = !matches!(
+        pipeline.seq.as_slice(),
+        [ast::Command::Compound(
+            ast::CompoundCommand::BraceGroup(_)
+                | ast::CompoundCommand::IfClause(_)
+                | ast::CompoundCommand::WhileClause(_)
+                | ast::CompoundCommand::UntilClause(_)
+                | ast::CompoundCommand::ForClause(_)
+                | ast::CompoundCommand::ArithmeticForClause(_)
+                | ast::CompoundCommand::CaseClause(_),
+            _
+        )]
+    );
+
     // Clear our the pipeline status so we can start filling it out.
-    shell.last_pipeline_statuses_mut().clear();
+    if records_statuses {
+        shell.last_pipeline_statuses_mut().clear();
+    }
 
     let pipeline_len = process_spawn_results.len();
     let mut index = 0;
@@ -712,9 +731,11 @@ async fn wait_for_pipeline_processes_and_update_status(
                     ExecutionResult::from(current_result.exit_code)
                 };
                 shell.set_last_exit_status(result.exit_code.into());
-                shell
-                    .last_pipeline_statuses_mut()
-                    .push(result.exit_code.into());
+                if records_statuses {
+                    shell
+                        .last_pipeline_statuses_mut()
+                        .push(result.exit_code.into());
+                }
 
                 // Track the last failure for pipefail option
                 if !result.is_success() {
